@@ -46,12 +46,27 @@ def main():
         mod = importlib.import_module("asynqmon.props." + unit["prop"].lower())
         prog_path = unit.get("progress")
 
+        case_timeout = float(unit.get("case_timeout", 45))
+
+        def on_alarm(signum, frame):
+            # a single case ran far beyond its budget: let the parent re-run it alone
+            try:
+                faulthandler.dump_traceback()
+            finally:
+                os._exit(17)
+
+        import signal
+
+        signal.signal(signal.SIGALRM, on_alarm)
+
         def progress(i):
             if prog_path:
                 with open(prog_path, "w") as pf:
                     pf.write(str(i))
+            signal.setitimer(signal.ITIMER_REAL, case_timeout)
 
         r = mod.run_unit(unit, progress)
+        signal.setitimer(signal.ITIMER_REAL, 0)
         for k in res:
             if k in r:
                 res[k] = r[k]
